@@ -11,6 +11,7 @@ import (
 
 	"verifharness/internal/core"
 	"verifharness/internal/drv"
+	"verifharness/internal/gentie"
 )
 
 const marker = "zqZq7"
@@ -556,12 +557,45 @@ func famProbes(c *core.Ctx) {
 		nonce[p.name] = p.nonce
 		byName[p.name] = p
 	}
-	sc, built, err := buildScratch(names, nonce)
+	static, err := staticProbeFiles()
+	if err != nil {
+		c.Oblige("correspondence", "probes: every probe template is generated by the repository's generator and compiles", false, err.Error())
+		return
+	}
+	lits, litFiles := genLitProbes(c)
+	files := append(append([]srcFile{}, static...), litFiles...)
+	// the generator model (model/Gen.v, the subject of C01_gen_sinks_escaped) emits the same Go text as the
+	// repository's generator on every probe file - hand-written and literal ones
+	var inputs []gentie.Input
+	for _, f := range files {
+		inputs = append(inputs, gentie.Input{Name: "probes/c01/" + f.name, Src: f.src})
+	}
+	gens := gentie.Tie(c, inputs, false)
+	var unusable []string
+	if len(gens) != len(inputs) {
+		for _, in := range inputs {
+			if g := gentie.Run(in); g.Skip != "" {
+				unusable = append(unusable, in.Name+": "+g.Skip)
+			}
+		}
+		if len(unusable) > 4 {
+			unusable = append(unusable[:4], "...")
+		}
+	}
+	c.Oblige("correspondence", "probes: every probe file (hand-written and literal) is parsed, generated and serialised for the generator model", len(gens) == len(inputs), strings.Join(unusable, "; "))
+	c.Extra["probe_files_tied_to_generator_model"] = len(gens)
+
+	sc, built, builtLits, err := buildScratch(files, names, nonce)
 	if err != nil {
 		c.Oblige("correspondence", "probes: every probe template is generated by the repository's generator and compiles", false, err.Error())
 		return
 	}
 	defer sc.Close()
+	litBuilt := map[string]bool{}
+	for _, n := range builtLits {
+		litBuilt[n] = true
+	}
+	famLitProbes(c, sc, lits, litBuilt)
 	missing := []string{}
 	have := map[string]bool{}
 	for _, n := range built {
